@@ -489,9 +489,11 @@ func (x *aprRun) expire(wr *aprWrite, inserted bool) bool {
 		if seen {
 			break
 		}
-		if time.Now().After(dead) {
-			// a write without any outcome: reported by the monitor (no-outcome); do not wait that long again
-			atomic.StoreInt64(&aprDeadlineNow, int64(300*time.Millisecond))
+		if time.Now().After(dead) && h.Kept(wr.t0.Add(aprTimeout)) > time.Duration(atomic.LoadInt64(&aprDeadlineNow))/2 {
+			// a write without any outcome although the process has been running that long since the timeout instant
+			// (kept time of the reference goroutine: a stall of the whole process stalls the timer goroutine as
+			// well): reported by the monitor (no-outcome); do not wait that long again
+			atomic.StoreInt64(&aprDeadlineNow, int64(600*time.Millisecond))
 			break
 		}
 		if rem := time.Until(wr.t0.Add(aprTimeout)); rem > 2*time.Millisecond {
@@ -664,18 +666,31 @@ func (x *aprRun) exec(op string) bool {
 		}
 		// a timer that fires while the connection is being removed is a race the harness does not decide (C10): every
 		// write still pending is either safely before its deadline or its timeout is awaited first
+		var waiting []*aprWrite
 		for _, wr := range append([]*aprWrite{}, w.order...) {
 			if wr.p != p || wr.gone {
 				continue
 			}
-			if _, ok := x.timely(wr); !ok {
+			tm, ok := x.timely(wr)
+			if !ok {
 				return false
+			}
+			if tm {
+				waiting = append(waiting, wr)
 			}
 		}
 		x.res.executed = append(x.res.executed, fmt.Sprintf("drop %d", p))
 		w.step++
 		w.scan()
 		w.drop(p)
+		for _, wr := range waiting {
+			// as for a verdict: the removal was started safely before the write's timeout instant; if it returned
+			// after that instant (a stall), the timer may have fired first - nothing was decided
+			if time.Since(wr.t0) >= aprTimeout {
+				x.res.abandoned = "a connection removal started in time returned after the timeout instant of a pending write"
+				return false
+			}
+		}
 		return x.compare(op, "drop", x.observe(nil), fmt.Sprintf("drop %d", p))
 	case "reconnect":
 		// the same peer (same SKI) connects again: a fresh connection, its message counters start over
@@ -730,9 +745,11 @@ func (x *aprRun) exec(op string) bool {
 			if k >= w.nCb {
 				break
 			}
-			if time.Since(t0) > bound {
-				// a callback was not invoked: reported by the monitor; do not wait that long again
-				atomic.StoreInt64(&aprPresentBound, int64(30*time.Millisecond))
+			if time.Since(t0) > bound && h.Kept(t0) > bound/2 {
+				// a callback was not invoked although the process has been running for that long (kept time of the
+				// reference goroutine, not the wall clock: a stall that hit the whole process hit the callback
+				// goroutines as well): reported by the monitor; do not wait that long again
+				atomic.StoreInt64(&aprPresentBound, int64(200*time.Millisecond))
 				break
 			}
 			time.Sleep(50 * time.Microsecond)
